@@ -36,12 +36,21 @@ func VH_C16_once() {
 
 	var ev Event
 	expectOp := true
-	switch rt.Choose(7) {
+	editable := false
+	switch rt.Choose(8) {
 	case 0:
 		n := gitlab.Note{ID: 100, Body: "a comment", CreatedAt: &t1, UpdatedAt: &t1}
 		n.Author.ID = 7
 		ev = NoteEvent{n}
+		editable = true
 		rt.Cover("comment")
+	case 7:
+		// text that the sanitiser alters (trailing blanks, carriage returns, a control byte)
+		n := gitlab.Note{ID: 107, Body: "line one  \r\nline\x07 two\t \n\n", CreatedAt: &t1, UpdatedAt: &t1}
+		n.Author.ID = 7
+		ev = NoteEvent{n}
+		editable = true
+		rt.Cover("comment-needing-cleanup")
 	case 1:
 		ev = StateEvent{gitlab.StateEvent{ID: 101, User: &gitlab.BasicUser{ID: 7}, CreatedAt: &t1, State: "closed"}}
 		rt.Cover("closed")
@@ -88,5 +97,20 @@ func VH_C16_once() {
 	rt.Assert(gi.ensureIssueEvent(rc, b, issue, ev) == nil, "event-re-imported")
 	ops2 := len(b.Snapshot().Operations)
 	rt.Assert(ops2 == ops1, "re-import-records-no-operation")
+	if editable {
+		// the tracker changed: the comment was edited there
+		t2 := time.Unix(1600000200, 0)
+		n := ev.(NoteEvent).Note
+		n.Body = n.Body + " (edited)  \r\n"
+		n.UpdatedAt = &t2
+		ev2 := NoteEvent{n}
+		rt.Assert(gi.ensureIssueEvent(rc, b, issue, ev2) == nil, "edit-imported")
+		ops3 := len(b.Snapshot().Operations)
+		rt.Assert(ops3 == ops2+1, "tracker-edit-records-exactly-one-operation")
+		rt.Assert(b.CommitAsNeeded() == nil, "commit-edit")
+		rt.Assert(gi.ensureIssueEvent(rc, b, issue, ev2) == nil, "edit-re-imported")
+		rt.Assert(len(b.Snapshot().Operations) == ops3, "re-import-of-the-edit-records-no-operation")
+		rt.Cover("edited-on-tracker")
+	}
 	rt.Observe("ops", ops2)
 }
